@@ -4,7 +4,7 @@ CONSTANTS
   Cs = {1, 2}
   Asns = {0, 1}
   NetSizes = {0, 1000}
-  MaxOps = 4
+  MaxOps = 5
   Cfg <- CfgSmall
   AsImplemented_V4AsnNotHalved = FALSE
   AsImplemented_IncrementBeforeBucket = FALSE
